@@ -787,6 +787,36 @@ theorem readMeta_complete (fr : Framer) (mhls : Nat) (orc : HpackOracle) (bs : L
   · cases hres
 
 
+/-- The reference predicate: a field name passes `validWireHeaderFieldName` iff it is non-empty and
+every BYTE is an ASCII (< 0x80) token character that is not an upper-case letter. In particular no
+name containing a multi-byte UTF-8 sequence passes, whatever the low byte of the rune is (the Go
+code ranges over runes: a rune ≥ 0x80 — or RuneError for invalid UTF-8 — fails `IsTokenRune`, and
+every byte of a multi-byte sequence is ≥ 0x80). -/
+theorem validWireHeaderFieldName_iff (v : List Nat) :
+    validWireHeaderFieldName v = true ↔
+      v ≠ [] ∧ ∀ b ∈ v, b < 128 ∧ isTokenByte b = true ∧ ¬ (65 ≤ b ∧ b ≤ 90) := by
+  unfold validWireHeaderFieldName
+  cases v with
+  | nil => simp
+  | cons a rest =>
+    simp only [List.isEmpty_cons, Bool.not_false, Bool.true_and, List.all_eq_true, ne_eq, reduceCtorEq,
+      not_false_eq_true, true_and]
+    constructor
+    · intro h b hb
+      have := h b hb
+      simp only [Bool.and_eq_true, decide_eq_true_eq, Bool.not_eq_true', Bool.and_eq_false_iff,
+        decide_eq_false_iff_not] at this
+      exact ⟨this.1.1, this.1.2, by omega⟩
+    · intro h b hb
+      obtain ⟨h1, h2, h3⟩ := h b hb
+      simp only [Bool.and_eq_true, decide_eq_true_eq, Bool.not_eq_true', Bool.and_eq_false_iff,
+        decide_eq_false_iff_not]
+      exact ⟨⟨h1, h2⟩, by omega⟩
+
+/-- `bš` (U+0161 = C5 A1, low byte 'a'), `ab①` (U+2461), `𐁡` (U+10061): rejected by the model. -/
+example : validWireHeaderFieldName [98, 197, 161] = false ∧ validWireHeaderFieldName [97, 98, 226, 145, 161] = false ∧
+    validWireHeaderFieldName [240, 144, 129, 161] = false ∧ validWireHeaderFieldName [98, 97] = true := by decide
+
 /-! ### Non-vacuity -/
 
 /-- a HEADERS frame (stream 1, END_HEADERS) whose block decodes to `:method: GET`, `a: b`. -/
